@@ -234,3 +234,63 @@ func HarnessC09Latest() {
 		verif.Class("")
 	}
 }
+
+// C09 (paging): a graph with seven results for every lookup method; page size
+// n and page offset k are solver variables: page k is the k-th block of n
+// elements of the unpaged result in its order, for every method.
+func HarnessC09Paging() {
+	g, err := memory.NewStore().NewGraph(ctx, "?g")
+	verif.Assume(err == nil)
+	mk := func(s, p, o byte) *spec {
+		sp := &spec{sb: s, pb: p, ob: o}
+		sp.t = sp.build()
+		return sp
+	}
+	var all []*spec
+	M := verif.Param("M", 7)
+	for i := 0; i < M; i++ {
+		c := byte('1' + i)
+		all = append(all, mk('a', 'p', c)) // same subject and predicate
+		all = append(all, mk(c, 'q', 'z')) // same predicate and object
+		all = append(all, mk('v', c, 'w')) // same subject and object
+	}
+	g.AddTriples(ctx, triples(all))
+	m := verif.Param("METHOD", -1)
+	if m < 0 {
+		m = verif.Choice("method", 11)
+	}
+	q := []*spec{mk('a', 'p', '1'), mk('1', 'q', 'z'), mk('a', 'x', 'x'), mk('x', 'x', 'z'), mk('v', 'x', 'w'),
+		mk('a', 'x', 'x'), mk('x', 'q', 'x'), mk('x', 'x', 'z'), mk('a', 'p', 'x'), mk('x', 'q', 'z'), mk('x', 'x', 'x')}[m]
+	read := func(lo *storage.LookupOptions) ([]*spec, error) {
+		res, _, err, foreign := c19ReadAll(g, m, q, lo, all)
+		verif.Assert(!foreign, "C09/paging/result-derived-from-stored-triple")
+		return res, err
+	}
+	unpaged, err0 := read(&storage.LookupOptions{})
+	verif.Assert(err0 == nil, "C09/paging/lookup-succeeds")
+	n, k := verif.Int("n"), verif.Int("k")
+	verif.Assume(verif.And(verif.And(n >= 1, n <= verif.Param("N", 4)), verif.And(k >= 0, k <= verif.Param("KMAX", 4))))
+	got, err1 := read(&storage.LookupOptions{MaxElements: n, Offset: k})
+	verif.Reach("paged")
+	verif.Assert(err1 == nil, "C09/paging/lookup-succeeds")
+	// concrete n, k on this path (each comparison is a solver-decided branch)
+	cn, ck := 0, 0
+	for v := 1; v <= verif.Param("N", 4); v++ {
+		if n == v {
+			cn = v
+		}
+	}
+	for v := 0; v <= verif.Param("KMAX", 4); v++ {
+		if k == v {
+			ck = v
+		}
+	}
+	lo, hi := cn*ck, cn*ck+cn
+	if lo > len(unpaged) {
+		lo = len(unpaged)
+	}
+	if hi > len(unpaged) {
+		hi = len(unpaged)
+	}
+	verif.Assert(sameSpecs(got, unpaged[lo:hi]), "C09/paging/page-is-the-kth-block")
+}
